@@ -30,7 +30,7 @@ def load_contracts(prop):
         for path in sorted(glob.glob(os.path.join(ROOT, "contracts", "c*.py"))):
             name = os.path.basename(path)[:-3]
             _MODS.append(importlib.import_module(f"contracts.{name}"))
-    return [h for h in H.REGISTRY if h.prop == prop], _MODS
+    return [h for h in H.REGISTRY if h.prop == prop or (isinstance(h.prop, tuple) and prop in h.prop)], _MODS
 
 
 def load_known(prop):
@@ -145,8 +145,10 @@ def main(argv):
         return 3
     known = load_known(prop)
     check_ms = 20000 if tier == "quick" else 120000
-    tasks = [(prop, h.name, ci, h.float_mode, None, max(check_ms, h.check_ms), {"budget_s": h.budget_s})
+    tasks = [(prop, h.name, ci, h.float_mode, None, max(check_ms, h.check_ms), {"budget_s": float(os.environ["VERIF_BUDGET"]) if os.environ.get("VERIF_BUDGET") else h.budget_s})
              for h in hs for ci, case in enumerate(h.case_list()) if h.in_tier(case, tier)]
+    byname = {h.name: h for h in hs}
+    tasks.sort(key=lambda t: 0 if (byname[t[1]].heavy is not None and byname[t[1]].heavy(*byname[t[1]].case_list()[t[2]])) else 1)
     n_deferred = sum(1 for h in all_hs for case in h.case_list() if not h.in_tier(case, tier))
     results = run_tasks(tasks, nproc)
     byh = {h.name: h for h in hs}
@@ -194,6 +196,8 @@ def main(argv):
         if not done and not r["errors"] and not [e for e in r["ends"] if e["kind"] == "unsupported"] and not vac_ok:
             errors.append(f"{r['harness']}[{r['ci']}]: no path reached the end (vacuous precondition)")
         for o in r["obligations"]:
+            if o["label"].startswith("[C") and not o["label"].startswith(f"[{prop}]"):
+                continue  # a clause of another property served by the same harness
             n_obl += 1
             if o["status"] == "proved":
                 n_ok += 1
@@ -360,11 +364,44 @@ def main(argv):
         else:
             mismatches.append(f"{hname}[{ci}] '{label}' was discharged but fails natively on {inputs}")
 
+    # ---- structural obligations (syntactic frame / purity / handler-set conditions) -----------
+    from .harness import STRUCTURAL
+    for sc in STRUCTURAL:
+        if not (sc.prop == prop or (isinstance(sc.prop, tuple) and prop in sc.prop)):
+            continue
+        if only and not any(o in sc.name for o in only.split(",")):
+            continue
+        try:
+            res = sc.fn()
+        except Exception:  # noqa: BLE001
+            errors.append(f"structural check {sc.name} crashed: " + traceback.format_exc(limit=6))
+            continue
+        if not res:
+            errors.append(f"structural check {sc.name}: zero obligations")
+        for label, ok, detail in res:
+            if label.startswith("[C") and not label.startswith(f"[{prop}]"):
+                continue
+            n_obl += 1
+            if ok:
+                n_ok += 1
+                by_backend["syntactic"] = by_backend.get("syntactic", 0) + 1
+                if len(samples) < 8:
+                    samples.append({"harness": sc.name, "obligation": label, "status": "proved", "backend": "syntactic", "detail": detail[:200]})
+                continue
+            kfs = [k for k in known["findings"] if k.get("harness") == sc.name and label in (k.get("labels") or [])]
+            if kfs:
+                known_seen.extend(k for k in kfs if k not in known_seen)
+                n_obl -= 1
+                n_known_direct += 1
+                continue
+            path = write_replay(prop, sc.name, 0, (), label, None, detail, False, functions, native=False)
+            violations.append((label, path, False))
+
     # ---- native checks of trusted library contracts (bounded, never counted as proved) ----
     from .harness import NATIVE
     native_report = []
     for nc in NATIVE:
-        if nc.prop != prop or (tier == "quick" and nc.tier != "quick"):
+        if not (nc.prop == prop or (isinstance(nc.prop, tuple) and prop in nc.prop)) or (tier == "quick" and nc.tier != "quick"):
             continue
         if only and not any(o in nc.name for o in only.split(",")):
             continue
@@ -462,6 +499,16 @@ def do_replay(prop, path):
         print(f"replay native check {nc.name}: failures {labels}")
         if body["obligation"] in labels:
             print(f"VIOLATION property={prop} replay={path}")
+            return 1
+        print("not reproduced on the current tree")
+        return 0
+    from .harness import STRUCTURAL
+    sc = next((x for x in STRUCTURAL if x.name == body["harness"]), None)
+    if sc is not None:
+        bad = [lab for lab, ok, _ in sc.fn() if not ok]
+        print(f"replay structural check {sc.name}: failing obligations {bad}")
+        if body["obligation"] in bad:
+            print(f"VIOLATION property={prop} replay={path} no-failing-input-found")
             return 1
         print("not reproduced on the current tree")
         return 0
